@@ -210,7 +210,7 @@ CHECKS = {
         "design_ref": "DESIGN.md §5 C16",
     },
     "C17": {
-        "level": "model_checking", "shards": 7, "deadline_quick": 100, "deadline_thorough": 1500,
+        "level": "model_checking", "shards": 8, "deadline_quick": 100, "deadline_thorough": 1500,
         "engine": "E-SEQ (mcache) + E-WORLD",
         "technique": "explicit-state model checking of the implementation: BFS by replay of the real MessageCache vs. a list-of-lists reference, and around one real gossipsub node with a window/cap monitor on the wire log",
         "rule": WORLD_RULE,
